@@ -55,6 +55,7 @@ def run(rep: core.Report):
     _r18h(rep)
     _r18j(rep)
     _r18k(rep)
+    _r18l(rep)
     from rules import shared_selfalias
 
     shared_selfalias.run(rep, "R18i", ["phonopy/cui/create_force_sets.py", "phonopy/cui/phonopy_script.py", "phonopy/cui/load_helper.py", "phonopy/cui/collect_cell_info.py", "phonopy/file_IO.py", "phonopy/interface/vasp.py"])
@@ -270,6 +271,42 @@ def _r18g(rep):
 
 
 
+def _r18l(rep):
+    """Dictionary-valued settings: the keys the script reads are keys the parser stores."""
+    rep.rule("R18l", "dictionary-valued settings (MODULATION): every key the command-line front end reads from the settings dictionary -- subscript, 'in' test or .get() -- is a key the configuration parser stores under; a key that is never stored reads as 'not given' without any error (.get) and the value of the tag or option never reaches the library call", 3)
+    parser = core.find_def(SETT, "PhonopyConfParser._parse_conf_modulation")
+    local = next((st.targets[0].id for st in parser.body if isinstance(st, ast.Assign) and isinstance(st.value, ast.Dict) and isinstance(st.targets[0], ast.Name)), None)
+    if local is None:
+        raise AnalysisError("R18l: _parse_conf_modulation no longer builds its dictionary")
+    stored = {d.value.keys[k].value for d in [st for st in parser.body if isinstance(st, ast.Assign) and isinstance(st.value, ast.Dict)] for k in range(len(d.value.keys)) if isinstance(d.value.keys[k], ast.Constant)}
+    for st in ast.walk(parser):
+        if isinstance(st, ast.Assign) and isinstance(st.targets[0], ast.Subscript) and core.src(st.targets[0].value) == local and isinstance(st.targets[0].slice, ast.Constant):
+            stored.add(st.targets[0].slice.value)
+    if len(stored) < 3:
+        raise AnalysisError(f"R18l: only {sorted(stored)} stored by _parse_conf_modulation")
+    tree = core.parse(SCRIPT)
+    n = 0
+    for fn in [x for x in ast.walk(tree) if isinstance(x, ast.FunctionDef)]:
+        names = {st.targets[0].id for st in ast.walk(fn) if isinstance(st, ast.Assign) and isinstance(st.targets[0], ast.Name) and isinstance(st.value, ast.Attribute) and st.value.attr == "modulation" and "settings" in core.src(st.value.value)}
+        if not names:
+            continue
+        for x in ast.walk(fn):
+            key = None
+            if isinstance(x, ast.Subscript) and isinstance(x.value, ast.Name) and x.value.id in names and isinstance(x.slice, ast.Constant):
+                key = x.slice.value
+            elif isinstance(x, ast.Compare) and isinstance(x.ops[0], (ast.In, ast.NotIn)) and isinstance(x.comparators[0], ast.Name) and x.comparators[0].id in names and isinstance(x.left, ast.Constant):
+                key = x.left.value
+            elif isinstance(x, ast.Call) and isinstance(x.func, ast.Attribute) and x.func.attr == "get" and isinstance(x.func.value, ast.Name) and x.func.value.id in names and x.args and isinstance(x.args[0], ast.Constant):
+                key = x.args[0].value
+            if key is None:
+                continue
+            n += 1
+            rep.instance("R18l", SCRIPT, core.qualname_of(fn), f"{core.norm(core.src(x), 60)} : key '{key}' stored by the parser", key in stored,
+                         f"the script reads the key '{key}' of the MODULATION setting, which the parser never stores (it stores {sorted(stored)}): the value given in the tag / option is silently ignored and the library call runs with its default", line=x.lineno)
+    if n < 3:
+        raise AnalysisError(f"R18l: only {n} reads of the MODULATION setting found in the script")
+
+
 def _r18k(rep):
     """Tag values read from a configuration file keep their case (the option route hands strings over unchanged)."""
     rep.rule("R18k", "configuration file route: the value of a tag is stored as written (stripped only); case folding is applied to the tag name, never to the value -- band labels, file names, calculator options are case-sensitive and reach the settings unchanged on the option route, so a folded value makes 'TAG = value' and '--option value' mean different things", 1)
@@ -420,6 +457,7 @@ def selftest():
     n = lambda name, file, old, new, **kw: V.append(dict(name=name, kind="neutral", file=file, old=old, new=new, **kw))
     b("default displacement distance for the raw calculator option", SCRIPT, "get_default_displacement_distance(phonon.calculator)", "get_default_displacement_distance(settings.calculator)", "R18j", "main")
     b("tag values lower-cased with the tag names", SETT, "                    left, right = [x.strip() for x in line.split(\"=\")]\n                    self._confs[left.lower()] = right", "                    left, right = [x.strip().lower() for x in line.split(\"=\")]\n                    self._confs[left] = right", "R18k", "read_file")
+    b("modulation order read under a key the parser does not store", SCRIPT, "        derivative_order = mod_setting[\"order\"]", "        derivative_order = mod_setting.get(\"derivative_order\")", "R18l", "derivative_order")
     CFS = "phonopy/cui/create_force_sets.py"
     b("residual forces subtracted through a view of the first set", CFS, "    for i in range(1, len(force_sets)):\n        force_sets[i] -= force_sets[0]\n", "    residual_forces = force_sets[0]\n    for forces in force_sets:\n        forces -= residual_forces\n", "R18i", "_subtract_residual_forces")
     n("residual forces subtracted through a copy of the first set", CFS, "    for i in range(1, len(force_sets)):\n        force_sets[i] -= force_sets[0]\n", "    residual_forces = force_sets[0].copy()\n    for forces in force_sets:\n        forces -= residual_forces\n")
